@@ -715,6 +715,30 @@ class Fn:
                 self.blocks)
         return self._pdom
 
+    def controlling_blocks(self, blk):
+        """control dependence: ids of the branching blocks that decide whether block `blk` executes - blk post-dominates (or is) one
+        successor and not another.  Unlike guards() this sees every branch, also those whose condition yields no atom (a disjunction)."""
+        pd = self.pdom()
+
+        def direct(x):
+            res = []
+            for fb, b in self.blocks.items():
+                if b.cond is None or len(b.succs) < 2 or fb == x:
+                    continue
+                sure = [(t == x) or (x in pd.get(t, set())) for (t, _l) in b.succs]
+                if any(sure) and not all(sure):
+                    res.append(fb)
+            return res
+        # transitively: a branch that decides whether a deciding branch is reached decides too
+        out, work = set(), [blk]
+        while work:
+            x = work.pop()
+            for fb in direct(x):
+                if fb not in out:
+                    out.add(fb)
+                    work.append(fb)
+        return sorted(out)
+
     def reachable_blocks(self):
         return set(self.dom().keys())
 
